@@ -39,7 +39,7 @@ func run(cfg *hx.RunCfg) (*hx.Result, error) {
 	}
 	n := cfg.N
 	if n == 0 {
-		n = 35
+		n = 30
 		if cfg.Tier == "thorough" {
 			n = 4000
 		}
